@@ -67,7 +67,8 @@ def run_history(variant, limit, expiration, ops):
             return body(None, a, k)
         call = lambda r, a, k: loop.run_until_complete(afn(*a, **k))
         wrapper = afn
-    model = OrderedDict()   # typed key -> (value, time)
+    uses = OrderedDict()    # typed key -> None, in order of last use (the statement's "most recently used keys")
+    last = {}               # typed key -> (value, time) of the latest invocation of the function for that key
     try:
         for op in ops:
             if op[0] == "tick":
@@ -80,28 +81,24 @@ def run_history(variant, limit, expiration, ops):
             n_before = len(produced)
             got = call(recv, args, kwargs)
             called = len(produced) > n_before
-            ent = model.get(tk)
-            fresh = ent is not None and (expiration is None or now[0] - ent[1] <= expiration)
-            # the clock is a float: at an age within rounding distance of the expiration (0.6 + 0.6 + 1.0 vs 1.2 + 1.0)
-            # "older than its expiration" is not decidable from the floats - both answers are accepted there
-            boundary = ent is not None and expiration is not None and abs((now[0] - ent[1]) - expiration) < 1e-9
-            if boundary:
-                fresh = not called
-            if fresh:
-                if called:
-                    return f"key {tk} is among the {limit} most recently used and unexpired, but the function was called again"
-                if got != ent[0]:
-                    return f"cached answer {got} differs from the value produced for this key {ent[0]}"
-                model.move_to_end(tk)
+            # (all clock steps and expirations are dyadic rationals: ages are exact floats, "older than its expiration" is decidable)
+            if not called:
+                src = [p for p in produced if p[1] == got]
+                if not src or src[0][0] != tk:
+                    return (f"answered {got} from the cache for key {tk}: that value was produced for "
+                            f"{src[0][0] if src else 'no call at all'}")
+                if expiration is not None and now[0] - src[0][2] > expiration:
+                    return (f"answered {got} from the cache for key {tk}: produced at t={src[0][2]}, now={now[0]}, "
+                            f"older than the expiration {expiration}")
             else:
-                if not called:
-                    src = [p for p in produced if p[1] == got]
-                    return (f"answered {got} from the cache for key {tk}: produced for {src[0][0] if src else '?'} "
-                            f"at t={src[0][2] if src else '?'}, now={now[0]}, expiration={expiration}")
-                model.pop(tk, None)
-                model[tk] = (got, now[0])
-                if len(model) > limit:
-                    model.popitem(last=False)
+                ent = last.get(tk)
+                mru = list(uses)[-limit:]
+                if ent is not None and tk in mru and (expiration is None or now[0] - ent[1] <= expiration):
+                    return (f"key {tk} is among the {limit} most recently used keys and its entry (made at t={ent[1]}, now={now[0]}, "
+                            f"expiration {expiration}) is not older than its expiration, but the function was called again")
+                last[tk] = (got, now[0])
+            uses[tk] = None
+            uses.move_to_end(tk)
             if len(wrapper._cached) > limit:
                 return f"{len(wrapper._cached)} entries alive with limit {limit}"
     finally:
@@ -114,7 +111,7 @@ def search(maxlen):
     n = 0
     calls = [("call", k, r) for k in range(3) for r in range(2)]
     for variant in ("sync", "method", "async"):
-        alphabet = ([c for c in calls if c[2] == 0] if variant != "method" else calls) + [("tick", 0.6), ("tick", 1.0)]
+        alphabet = ([c for c in calls if c[2] == 0] if variant != "method" else calls) + [("tick", 0.5), ("tick", 1.0)]
         for limit in (1, 2):
             for expiration in (None, 1.0):
                 ab = alphabet if expiration is not None else [a for a in alphabet if a[0] == "call"]
@@ -128,6 +125,21 @@ def search(maxlen):
                         p = run_history(variant, limit, expiration, ops)
                         if p:
                             return n, dict(variant=variant, limit=limit, expiration=expiration, history=list(ops), problem=p)
+    # longer random histories (the exhaustive part stops at length maxlen+1): clock steps of half the expiration, so that
+    # lookups, insertions and evictions often happen at the very instant an entry reaches its expiration
+    import random
+    rng = random.Random(int(os.environ.get("VERIF_SEED", "0") or 0))
+    for _ in range(int(os.environ.get("C12_RANDOM", "1500"))):
+        variant = rng.choice(("sync", "method", "async"))
+        limit = rng.choice((1, 2, 3))
+        expiration = rng.choice((None, 1.0, 1.0, 2.0))
+        ab = ([c for c in calls if c[2] == 0] if variant != "method" else calls) + \
+            ([] if expiration is None else [("tick", 0.5), ("tick", 1.0), ("tick", 0.5)])
+        ops = tuple(rng.choice(ab) for _ in range(rng.randint(5, 12)))
+        n += 1
+        p = run_history(variant, limit, expiration, ops)
+        if p:
+            return n, dict(variant=variant, limit=limit, expiration=expiration, history=list(ops), problem=p)
     return n, None
 
 
